@@ -45,6 +45,42 @@ class Scanner:
                 if isinstance(c, ast.Call) and isinstance(c.func, ast.Name) and c.func.id == "setattr" and len(c.args) == 3:
                     self.setattrs.append((n, c))
         self.where = f"{self.mod.path}:{self.fn.lineno} in compile_code"
+        # effective sites: a setattr that runs in 'for k, v in D.items()' over a dictionary D which the scan fills with D[K] = V
+        # takes effect where D[K] = V stands (same name, same value, same conditions); whether applying D afterwards keeps the
+        # "last directive wins" order is R15.e's question
+        self.sites = []
+        for n, c in self.setattrs:
+            virt = self._virtual_sites(n, c)
+            self.sites.extend(virt if virt else [(n, c)])
+
+    def _virtual_sites(self, n, call):
+        p = getattr(call, "parent", None)
+        lp = None
+        while p is not None and p is not self.fn:
+            if isinstance(p, ast.For):
+                lp = p
+                break
+            p = getattr(p, "parent", None)
+        if lp is None or not (isinstance(lp.iter, ast.Call) and isinstance(lp.iter.func, ast.Attribute) and lp.iter.func.attr == "items" and isinstance(lp.iter.func.value, ast.Name)
+                              and isinstance(lp.target, ast.Tuple) and len(lp.target.elts) == 2):
+            return []
+        k, v = norm(lp.target.elts[0]), norm(lp.target.elts[1])
+        if not (norm(call.args[1]) == k and norm(call.args[2]) == v):
+            return []
+        dn = lp.iter.func.value.id
+        fills = [st for st in ast.walk(self.fn) if isinstance(st, ast.Assign) and len(st.targets) == 1 and isinstance(st.targets[0], ast.Subscript) and norm(st.targets[0].value) == dn]
+        out = []
+        for st in fills:
+            ids = [x.id for x in self.cfg.nodes_of(st)]
+            if not ids:
+                continue
+            vc = ast.Call(func=ast.Name(id="setattr", ctx=ast.Load()), args=[call.args[0], st.targets[0].slice, st.value], keywords=[])
+            ast.copy_location(vc, st)
+            ast.fix_missing_locations(vc)
+            vc.parent = st
+            vc.virtual_for = call
+            out.append((self.cfg.nodes[ids[0]], vc))
+        return out
 
     def for_loops(self):
         return [n for n in self.cfg.nodes if n.kind == "for" and n.id in self.cfg.reachable()]
@@ -248,9 +284,9 @@ def run(repo: Repo, chk: Check):
         raise AnalysisError("compile_code: no setattr site (directive application) found")
     fields = set(sc.fields)
     pending_error = None
-    for idx, (n, call) in enumerate(sc.setattrs):
+    for idx, (n, call) in enumerate(sc.sites):
         obj, name, val = call.args
-        key = f"compiler:compile_code:setattr #{idx + 1}" if len(sc.setattrs) > 1 else "compiler:compile_code:setattr"
+        key = f"compiler:compile_code:setattr #{idx + 1}" if len(sc.sites) > 1 else "compiler:compile_code:setattr"
         where = f"{sc.mod.path}:{call.lineno} in compile_code"
         # ---- the loop over the names of one directive
         tag_loop = None
@@ -270,7 +306,7 @@ def run(repo: Repo, chk: Check):
             pending_error = "compile_code: the loop over the comma-separated names of a directive was not found around setattr"
             continue
         T = tag_loop.target.id
-        env, conds = symbolic_path(tag_loop, call)
+        env, conds = symbolic_path(tag_loop, call.parent if getattr(call, "virtual_for", None) is not None else call)
         name_e, val_e = _subst(name, env), _subst(val, env)
         # does the path constrain the prefix test?
         pols = []
@@ -442,6 +478,27 @@ def r15e(sc: Scanner, chk: Check, rule: str):
             ds = sc.rd.at(lp.id, lp.stmt.iter.id)
             ordered = bool(ds) and all(d.kind == "assign" and isinstance(d.value, ast.List) and not d.value.elts for d in ds) and \
                 any(isinstance(c, ast.Call) and norm(c.func) == f"{lp.stmt.iter.id}.append" for c in ast.walk(sc.fn))
+        # a dictionary name -> value filled by plain item assignment in scan order: the last directive for a name overwrites the
+        # earlier ones, and the options are independent fields, so applying the entries afterwards in any order gives the same result
+        if lp is not None and len(outside) == 1 and isinstance(lp.stmt.iter, ast.Call) and isinstance(lp.stmt.iter.func, ast.Attribute) and lp.stmt.iter.func.attr == "items" \
+                and isinstance(lp.stmt.iter.func.value, ast.Name) and isinstance(lp.stmt.target, ast.Tuple) and len(lp.stmt.target.elts) == 2:
+            dn = lp.stmt.iter.func.value.id
+            ds = sc.rd.at(lp.id, dn)
+            empty = bool(ds) and all(d.kind == "assign" and (isinstance(d.value, ast.Dict) and not d.value.keys or isinstance(d.value, ast.Call) and norm(d.value) == "dict()") for d in ds)
+            fills = [st for st in ast.walk(sc.fn) if isinstance(st, ast.Assign) and any(isinstance(t, ast.Subscript) and norm(t.value) == dn for t in st.targets)]
+            others = [c for c in ast.walk(sc.fn) if isinstance(c, ast.Call) and isinstance(c.func, ast.Attribute) and norm(c.func.value) == dn and c.func.attr not in ("items", "get", "keys", "values")]
+            in_line_loop = all(any(any(x is st for x in ast.walk(ll.stmt)) for ll in line_loops) for st in fills)
+            conditional = []
+            for st in fills:
+                ids_ = [x.id for x in cfg.nodes_of(st)]
+                for t_, p_ in (cfg.guards(ids_[0]) if ids_ else []):
+                    if isinstance(t_, ast.expr) and dn in {x.id for x in ast.walk(t_) if isinstance(x, ast.Name)}:
+                        conditional.append(norm(t_))      # 'if name not in overrides': first wins
+            k, v = norm(lp.stmt.target.elts[0]), norm(lp.stmt.target.elts[1])
+            uses_pair = len(call.args) == 3 and norm(call.args[1]) == k and norm(call.args[2]) == v
+            ordered = empty and bool(fills) and not others and in_line_loop and not conditional and uses_pair
+            if ordered:
+                scan_loops.extend(ll for ll in line_loops if any(any(x is st for x in ast.walk(ll.stmt)) for st in fills))
         chk.judge(rule, f"compiler:compile_code:{norm(call)} is applied in source order", ordered,
                   f"directives are applied after the scan from {coll or 'outside any loop'}" + ("" if ordered else
                   ": a set, or separate passes for enabling and disabling names, forget the order in which the directives were written, so the last directive for an option does not win"),
@@ -488,7 +545,11 @@ def r15e(sc: Scanner, chk: Check, rule: str):
                   f"loop over {it} {'is not in source order' if not ordered else 'contains break'}: the last directive would not win", None,
                   f"{sc.mod.path}:{lp.stmt.lineno} in compile_code")
     # the scanned text is the main module
-    outer_iter = outer.stmt.iter
+    scan_outer = outer
+    inner_lines = [ll for ll in line_loops if ll in scan_loops or any(any(x is c_ for x in ast.walk(ll.stmt)) for _n, c_ in sc.setattrs)]
+    if inner_lines and not (norm(outer.stmt.iter).endswith(".splitlines()")):
+        scan_outer = inner_lines[0]
+    outer_iter = scan_outer.stmt.iter
     base = None
     if isinstance(outer_iter, ast.Call) and isinstance(outer_iter.func, ast.Attribute) and isinstance(outer_iter.func.value, ast.Name):
         base = outer_iter.func.value.id
